@@ -453,7 +453,12 @@ func init() {
 			sc.CanonicalBlock = true
 			sc.BlockedOK = true // a silent peer and a caller that never cancels: waiting is the correct behaviour
 			sc.Stubs = map[string]interceptFn{repoModule + "/internal/transfer.readAtWithPool": stubReadAtDirect}
-			js := []*Job{r, sn, sc}
+			ob := hj("C02.obstructed", "H_C02_obstructed", "healthy sender, output path taken by a directory / parent is a regular file")
+			ob.Threads, ob.TimersNeverFire, ob.Workers, ob.MaxPaths = true, true, 16, 5000000
+			so := hj("C02.sender-source", "H_C02_sender_source", "real sender whose source file was shortened or removed after the scan")
+			so.Threads, so.Workers, so.MaxPaths, so.TimerBudget = true, 16, 5000000, 1
+			so.Stubs = map[string]interceptFn{repoModule + "/internal/transfer.readAtWithPool": stubReadAtDirect}
+			js := []*Job{r, sn, sc, ob, so}
 			if tier == "thorough" {
 				pr := hj("C02.receiver-preempt", "H_C02_receiver", "faulty scripted sender, schedules with one preemption of a goroutine at a select")
 				pr.Threads, pr.TimersNeverFire, pr.Workers, pr.MaxPaths = true, true, 16, 5000000
